@@ -229,7 +229,13 @@ def _make_execute(sub: "Sub", last: dict, t0: float, stats: "Stats",
                   known_keys: dict) -> Callable:
     def execute(case: Any) -> None:
         if time.time() - t0 > sub.cap_s and not last.get("failing"):
-            raise _Stop()
+            # wall-clock safety cap reached: the remaining generated cases are skipped (never a failure - raising
+            # here would make Hypothesis treat the cap as a failing example); recorded as budget_cap_hit
+            if sub.name not in stats.budget_hit:
+                stats.budget_hit.append(sub.name)
+            if sub.cases is not None:
+                raise _Stop()              # plain iteration (no Hypothesis): leave the loop
+            return
         try:
             try:
                 info = sub.run(case)
@@ -268,6 +274,9 @@ def run_shard(module: Any, tier: str, seed: int, shard: int, nshards: int,
     violations: list[dict] = []
 
     all_subs = list(module.subs(tier))
+    if os.environ.get("VERIF_CAP_S"):
+        for s_ in all_subs:
+            s_.cap_s = float(os.environ["VERIF_CAP_S"])
     if tier == "quick":
         # the per-sub-check example counts in checks/*.py are the original single-digit-second budgets; the quick
         # tier as registered runs 8 shards of 3 x that (six times the cases, still well under a minute per check)
@@ -336,7 +345,8 @@ def run_shard(module: Any, tier: str, seed: int, shard: int, nshards: int,
                 test = hseed(derive_seed(seed, shard, sub.name))(test)
                 test()
         except _Stop:
-            stats.budget_hit.append(sub.name)
+            if sub.name not in stats.budget_hit:
+                stats.budget_hit.append(sub.name)
         except Violation as v:
             violations.append({
                 "sub": sub.name, "key": last.get("key", v.key),
@@ -405,7 +415,12 @@ class RecordingMixin:
             return
         if self._hook is not None and time.time() - self._hook[4] > self._hook[5] \
                 and not self._hook[2].get("failing"):
-            raise _Stop()
+            # wall-clock safety cap: the rest of this and of all later histories is skipped, never reported
+            if self._hook[1] not in self._hook[0].budget_hit:
+                self._hook[0].budget_hit.append(self._hook[1])
+            self.dead = True
+            self.capped = True
+            return
         self.log.append([name, args])
         try:
             try:
@@ -442,6 +457,8 @@ class RecordingMixin:
         if self._hook is None:
             return
         stats, name = self._hook[:2]
+        if getattr(self, "capped", False) and not self.log:
+            return
         stats.record(name, list(self.log),
                      {"nontrivial": self.nontrivial and not self.dead,
                       "labels": sorted(self.info_labels)})
@@ -633,4 +650,6 @@ def main_check(module: Any, argv: list[str]) -> int:
           f"known_hits={sum(known_hits.values())} wall={wall:.1f}s")
     for s, d in per_sub.items():
         print(f"   {s}: {d}")
+    if budget_hit:
+        print(f"   wall-clock cap reached in: {sorted(set(budget_hit))} (remaining cases skipped; not a failure)")
     return 1 if vlist else 0
